@@ -12,13 +12,13 @@
 //!     requirement a second time changes nothing (idempotent).
 //! Universe: names a:b/c@0.2.0, a:b/c@0.2.1, a:b/c@0.3.0, a:b/c@1.0.0, a:b/c@1.2.0, a:b/c@0.21.0 and a:b/c@12.0.0 (other tracks
 //! whose names have a track key of the former as a textual prefix), plain `x`; instance requirements with
-//! exports f: F1|F2|absent, g: F1|absent; for `x` also the bare functions F1 and F2.
+//! exports f: F1|F2|absent, g: F1|F2|absent (f and g share one type id when they have the same type); for `x` also the bare functions F1 and F2.
 //! Exit 0 = agreement, 1 = a disagreeing multiset/order is printed.   usage: c09_merge [max_contributors]
 use std::collections::{BTreeMap, BTreeSet, HashSet};
 use wac_types::{FuncType, Interface, ItemKind, PrimitiveType, SubtypeChecker, TypeAggregator, Types, ValueType};
 
 #[derive(Clone, Copy, PartialEq, Eq, Debug, PartialOrd, Ord)]
-enum Req { Inst { f: u8, g: u8 }, Func(u8) }   // f: 0 absent, 1 F1, 2 F2; g: 0 absent, 1 F1
+enum Req { Inst { f: u8, g: u8 }, Func(u8) }   // f, g: 0 absent, 1 F1, 2 F2
 
 const NAMES: [&str; 8] = ["a:b/c@0.2.0", "a:b/c@0.2.1", "a:b/c@0.3.0", "a:b/c@1.0.0", "a:b/c@1.2.0", "x", "a:b/c@0.21.0", "a:b/c@12.0.0"];
 fn group_of(n: usize) -> usize { match n { 0 | 1 => 0, 2 => 1, 3 | 4 => 2, 5 => 3, 6 => 4, _ => 5 } }
@@ -30,8 +30,10 @@ fn build(types: &mut Types, name: &str, r: Req) -> ItemKind {
         Req::Func(k) => ItemKind::Func(func(types, k)),
         Req::Inst { f, g } => {
             let mut exports = indexmap::IndexMap::new();
-            if f != 0 { let id = func(types, f); exports.insert("f".to_string(), ItemKind::Func(id)); }
-            if g != 0 { let id = func(types, g); exports.insert("g".to_string(), ItemKind::Func(id)); }
+            // exports of the same function type share ONE type id, as decoded packages do
+            let fid = if f != 0 { Some(func(types, f)) } else { None };
+            if let Some(id) = fid { exports.insert("f".to_string(), ItemKind::Func(id)); }
+            if g != 0 { let id = if g == f { fid.unwrap() } else { func(types, g) }; exports.insert("g".to_string(), ItemKind::Func(id)); }
             let id = if name.contains('/') { Some(name.to_string()) } else { None };
             ItemKind::Instance(types.add_interface(Interface { id, uses: Default::default(), exports }))
         }
@@ -88,9 +90,9 @@ fn main() {
     let maxn: usize = std::env::args().nth(1).and_then(|s| s.parse().ok()).unwrap_or(3);
     let mut pool: Vec<(usize, Req)> = vec![];
     for n in 0..NAMES.len() {
-        for f in 0..3u8 { for g in 0..2u8 { pool.push((n, Req::Inst { f, g })); } }
+        for f in 0..3u8 { for g in 0..3u8 { pool.push((n, Req::Inst { f, g })); } }
         if n == 5 { pool.push((n, Req::Func(1))); pool.push((n, Req::Func(2))); }
-        if n >= 6 { pool.truncate(pool.len() - 4); }   // the two prefix-confusable names: two requirement shapes each are enough
+        if n >= 6 { pool.truncate(pool.len() - 7); }   // the two prefix-confusable names: two requirement shapes each are enough
     }
     let (mut multisets, mut runs, mut conflicts) = (0u64, 0u64, 0u64);
     // multisets as non-decreasing index tuples
